@@ -44,6 +44,14 @@ Proof.
   congruence.
 Qed.
 
+Lemma valid_order_ties bs ids order : valid_order bs ids = Some order -> ties_by_id order = true.
+Proof.
+  unfold valid_order. intros H.
+  destruct (Nat.eqb (length ids) (length bs) && nodupN ids); [|discriminate].
+  destruct (pick_bids bs ids) as [l|]; [|discriminate].
+  destruct (prices_desc l && ties_by_id l) eqn:D0; [|discriminate]. apply andb_prop in D0. inversion H; subst l. apply D0.
+Qed.
+
 Lemma valid_order_spec bs ids order :
   valid_order bs ids = Some order ->
   Permutation order bs /\ prices_desc order = true /\ map b_id order = ids /\ NoDup ids.
@@ -52,7 +60,7 @@ Proof.
   destruct (Nat.eqb (length ids) (length bs) && nodupN ids) eqn:C; [|discriminate].
   apply andb_prop in C. destruct C as [C1 C2]. apply Nat.eqb_eq in C1. apply nodupN_NoDup in C2.
   destruct (pick_bids bs ids) as [l|] eqn:Pk; [|discriminate].
-  destruct (prices_desc l) eqn:D; [|discriminate]. inversion H; subst l.
+  destruct (prices_desc l && ties_by_id l) eqn:D0; [|discriminate]. apply andb_prop in D0. destruct D0 as [D _]. inversion H; subst l.
   destruct (pick_bids_spec bs ids order Pk) as [E I].
   split; [|split; [exact D|split; [exact E|exact C2]]].
   apply NoDup_Permutation_bis.
